@@ -117,7 +117,7 @@ def predictedFrames (o : Outcome) : List Fr := (o.steps.flatMap (·.frames)).map
 theorem run_fs_wf (env : Env) (fuel : Nat) (asl input ctx : Json) : (runCore env fuel asl input ctx).2.fs.WF := by
   unfold runCore
   split
-  · exact (presAll wfOps env fuel).runFrom _ _ _ _ _ _ wf_init
+  · exact (presAll wfOps (env.forMachine asl) fuel).runFrom _ _ _ _ _ _ wf_init
   · exact wf_init
 
 theorem endFS_wf (r : Res) (st : St) (h : st.fs.WF) : (endFS r st).WF := by
@@ -170,7 +170,7 @@ theorem predicted_ledger_drained (env : Env) (fuel : Nat) (asl input ctx : Json)
     (Ledger.run (predictedFrames (run env fuel asl input ctx))).bad = false ∧
     (Ledger.run (predictedFrames (run env fuel asl input ctx))).unacked = [] := by
   have hw := run_fs_wf env fuel asl input ctx
-  have hb := (balAll env fuel)
+  have hb := (balAll (env.forMachine asl) fuel)
   -- the levels are as at the start: none
   have hbal : (runCore env fuel asl input ctx).2.fs.lvl.fins = [] ∧ (runCore env fuel asl input ctx).2.fs.outer = [] := by
     unfold runCore
